@@ -115,18 +115,29 @@ type lightClient struct {
 	stump  u.Stump
 	proof  u.Proof
 	hashes []Hash
+	calls  int
 }
 
+// update feeds one block to the stump and the cached proof. The block data is laid out differently
+// from call to call (three exact-size copies / empty lists as nil / deletions and additions as the two
+// halves of one array - see c11Args), and Proof.Update is handed the very slices Stump.Update has just
+// seen, as a caller holding one copy of the block does.
 func (lc *lightClient) update(delH []Hash, blockProof u.Proof, addH []Hash, rem []int) error {
-	ud, err := lc.stump.Update(cloneHashes(delH), cloneHashes(addH), cloneProof(blockProof))
+	layout := []string{"", "nil", "onebuf"}[lc.calls%3]
+	lc.calls++
+	dArg, aArg, pArg, _ := c11Args(layout, delH, addH, blockProof)
+	ud, err := lc.stump.Update(dArg, aArg, pArg)
 	if err != nil {
 		return err
 	}
-	r32 := make([]uint32, len(rem))
+	var r32 []uint32
+	if len(rem) > 0 || layout != "nil" {
+		r32 = make([]uint32, len(rem))
+	}
 	for i, r := range rem {
 		r32[i] = uint32(r)
 	}
-	lc.hashes, err = lc.proof.Update(lc.hashes, cloneHashes(addH), cloneU64(blockProof.Targets), r32, ud)
+	lc.hashes, err = lc.proof.Update(lc.hashes, aArg, pArg.Targets, r32, ud)
 	return err
 }
 
